@@ -223,6 +223,8 @@ def run(ctx):
     same = [('sync', 'sync'), ('async', 'async')]
     p0 = param_list(ctx, allpairs)
     small = deviation_list(ctx, same if ctx.quick else allpairs)
+    if not ctx.quick:
+        small = [dict(q, _free_switch=True) for q in small]
     st = core.Stats()
     viols = []
     samples = []
